@@ -380,4 +380,47 @@ pub(crate) mod b {
         }
         println!("BOUNDED-CASES {}", n);
     }
+
+    /// C09 S4 (bounded stand-in): what `merge_fragment_spans` returns is a fix-point of merging - no earlier
+    /// fragment merges with a later one - for every small grid over the line alphabet
+    #[test]
+    fn bounded_merge_fragment_spans_fixpoint() {
+        let alphabet = [' ', '-', '|', '+', '_'];
+        let mut n = 0u64;
+        for (rows, cols) in [(2usize, 4usize), (4, 2), (3, 3)] {
+            let cells = rows * cols;
+            let total = 5u32.pow(cells as u32);
+            // 3x3 has 1.9 M grids: take every 7th in the quick tier
+            let step = if cells == 9 && !std::env::var("VERIF_TIER").map(|v| v == "thorough").unwrap_or(false) { 7 } else { 1 };
+            let mut code = 0u32;
+            while code < total {
+                let mut text = String::new();
+                let mut cd = code;
+                for r in 0..rows {
+                    for _c in 0..cols {
+                        text.push(alphabet[(cd % 5) as usize]);
+                        cd /= 5;
+                    }
+                    if r + 1 < rows {
+                        text.push('\n');
+                    }
+                }
+                let cb = CellBuffer::from(text.as_str());
+                for sp in Vec::<Span>::from(&cb) {
+                    let frags = FragmentBuffer::from(sp).merge_fragment_spans();
+                    for i in 0..frags.len() {
+                        for j in 0..i {
+                            if frags[j].merge(&frags[i]).is_some() {
+                                println!("BOUNDED-WITNESS grid {:?}: fragments {} and {} of the merged list still merge: {} / {}", text, j, i, frags[j].fragment, frags[i].fragment);
+                                panic!("merge_fragment_spans returns a fix-point");
+                            }
+                        }
+                    }
+                }
+                n += 1;
+                code += step;
+            }
+        }
+        println!("BOUNDED-CASES {}", n);
+    }
 }
